@@ -257,6 +257,11 @@ class E1:
                     t = {"add": ("add", a, c, bits), "sub": ("sub", a, c, bits), "mul": ("mulc", a, c, bits), "shl": ("shl", a, c, bits),
                          "lshr": ("shr", a, c), "and": ("and", a, c), "or": ("or", a, c), "udiv": ("udiv", a, c), "urem": ("urem", a, c)}.get(op)
                     if t is None: raise Unsupported(op)
+                    # add of a "negative" constant (x + (2^bits - k), i.e. x - k written the way an optimiser or a cast would): where the sum
+                    # wraps on the whole interval it is the plain difference
+                    if op == "add" and bits < 128 and c >= (1 << (bits - 1)) and monotone(a, path.lo, path.hi) and ev(a, path.lo) + c >= (1 << bits) \
+                            and ev(a, path.hi) < (1 << bits):
+                        env[i.id] = norm(("sub", a, (1 << bits) - c, bits), path.lo, path.hi); continue
                     # sub that wraps on the lower part of the interval: split the interval at the wrap point; below it the
                     # result is a + (2^bits - c) (no wrap), above it the plain difference
                     if op == "sub" and monotone(a, path.lo, path.hi) and ev(a, path.lo) < c:
@@ -315,9 +320,17 @@ class E1:
                 env[i.id] = ("cmp", i["pred"], a, c2)
             elif op == "select":
                 c = V(0)
-                for lo, hi, truth in self.cond_pieces(c, path):
-                    if (lo, hi) != (path.lo, path.hi): raise Unsupported("select splits interval")
-                    env[i.id] = V(1) if truth else V(2)
+                pieces = list(self.cond_pieces(c, path))
+                if len(pieces) == 1 and (pieces[0][0], pieces[0][1]) == (path.lo, path.hi):
+                    env[i.id] = V(1) if pieces[0][2] else V(2)
+                else:
+                    # the condition holds on part of the interval only: continue once per piece, as a branch would
+                    for (pa, pb, truth) in pieces:
+                        p2 = path.fork(pa, pb); env2 = self.renorm(env, pa, pb)
+                        v = self.val(i.ops[1] if truth else i.ops[2], env2, args, p2)
+                        env2[i.id] = norm(v, pa, pb) if isinstance(v, tuple) and v and v[0] in ("sub", "add", "shr", "and", "or", "udiv", "urem", "shl", "mulc", "or2", "add2") else v
+                        yield from self.rest(fn, b, i.idx + 1, env2, args, p2)
+                    return
             elif op == "call":
                 callee = i.get("callee")
                 if callee and callee.startswith("llvm.memcpy"):
